@@ -53,4 +53,7 @@ try:
 finally:
     sh('git -C /repo worktree remove --force %s' % WT)
     shutil.rmtree(SCR, ignore_errors=True)
-json.dump(results, open(os.path.join(BASE, 'TIE_MATRIX.json'), 'w'), indent=1, sort_keys=True)
+out_path = os.path.join(BASE, 'TIE_MATRIX.json')
+merged = json.load(open(out_path)) if os.path.exists(out_path) else {}
+merged.update(results)
+json.dump(merged, open(out_path, 'w'), indent=1, sort_keys=True)
